@@ -346,7 +346,7 @@ CHECKS["C13"] = dict(
     text=("Lean 4 model of the scanner as per-chunk maximal munch over the 28 rules of tokenizer.lex with start conditions, chunking "
           "as tokenizer_buf, reassembly as Parser::next_token; round 3: EVERY reader of source text transcribed call by call "
           "(Model/LexReaders.lean): StringReader (C API, bloc -e), apps ReadFile (bloc FILE, bloc -, load), the private ReadFile of "
-          "include, bloc_readstdin and the readline branch of the interactive loop. Theorems (BlocV.Proofs.C13, 33): "
+          "include, bloc_readstdin and the readline branch of the interactive loop. Theorems (BlocV.Proofs.C13, 34): "
           "lex_line_aligned, pop_line_aligned, fragmentation_independent (chunks ending after a newline: chunked = whole), "
           "lineReader_aligned, CRLF = LF; string/file/includeReader_eq_lineReader, stdinReader / readlineLine_eq_lineSplit, "
           "interactive_readers_agree, *_delivers_every_byte for all six readers (concatenation = text minus CRs, every chunk "
